@@ -1087,6 +1087,22 @@ func (x *Exec) evalBuiltinSpec(ce *CEnv, name string, args []Expr) (*Val, bool) 
 	case "sqrt":
 		v := x.coerce(x.eval(ce, args[0]), float64T)
 		return &Val{Typ: float64T, T: x.mathSqrt(ce.guard, v.T)}, true
+	case "pow2":
+		// pow2(e) for integer e >= 0: uninterpreted, with the defining facts
+		// instantiated at this argument (pow2(0)=1, pow2(e+1)=2*pow2(e), pow2(e)>=1)
+		v := x.coerce(x.eval(ce, args[0]), intT)
+		x.declareUF("pow2", []string{"Int"}, "Int")
+		x.pow2Axioms()
+		app := x.b.App("pow2", "Int", v.T)
+		if !v.T.Bound {
+			k := "pow2inst:" + fmt.Sprint(v.T.ID)
+			if !x.ufDecl[k] {
+				x.ufDecl[k] = true
+				x.axiom(x.b.Implies(x.b.Cmp(">=", v.T, x.b.Int(0)), x.b.And(x.b.Cmp(">=", app, x.b.Int(1)),
+					x.b.Eq(x.b.App("pow2", "Int", x.b.Add(v.T, x.b.Int(1))), x.b.Mul(x.b.Int(2), app)))))
+			}
+		}
+		return &Val{Typ: intT, T: app}, true
 	case "calls":
 		v := x.eval(ce, args[0])
 		x.heapSorts["G_calls"] = "(Array Int Int)"
